@@ -195,6 +195,11 @@ def run_case(case):
     return discrs, nt, sorted(set(classes))
 
 
+def extra_passes(run, tier, shard, nshards):
+    from props._cc import exhaustive_sweep
+    exhaustive_sweep(run, tier, shard, nshards, lambda case, tr: check_trace(case, tr)[0])
+
+
 REQUIRED_CLASSES = ['archive_refused_victim', 'attached_after_decoration', 'evicted_to_archive', 'purged_to_archive', 'victim_was_loaded', 'late_attach',
                     'eff_algo:lfu', 'eff_algo:mru', 'eff_algo:rr', 'eff_algo:no', 'module:safe']
 TRIGGERS = {}
